@@ -68,6 +68,15 @@ class P:
             return items
 
     def value(self):
+        # a FourCC whose text STARTS WITH A SPACE (or is all spaces): `field:  "ak / 0x2022616B` — the separator space is followed by the text itself.
+        # Recognised before white space is skipped, by the same test as below (the text is the lossy rendering of the code's four bytes).
+        for start in (self.i, self.i + 1):
+            m0 = FOURCC.match(self.s, start)
+            if m0 and (m0.end() == len(self.s) or self.s[m0.end()] in ",)}] "):
+                code0 = int(m0.group(2), 16)
+                if code0.to_bytes(4, "big").decode("utf-8", "replace") == m0.group(1) and (start == self.i or self.s[self.i] == " "):
+                    self.i = m0.end()
+                    return ("fourcc", code0)
         self.ws()
         m = FOURCC.match(self.s, self.i)
         if m and (m.end() == len(self.s) or self.s[m.end()] in ",)}] "):
